@@ -257,6 +257,30 @@ func genC12(g *Rng, tier string, emit func(Op)) {
 				emit(verifyDOp(kp.id, tw, ctx, nonce, false, "rp-factor-wrap-exploit", "reject").with("fkey", "C12/factor-wrap"))
 			}
 		}
+		// forged range proof: all commitments C_i = 0 (or another non-unit) make every reconstructed
+		// commitment 0 whatever the statement says; a holder without any witness for the statement
+		// computes the challenge over zeros and attaches a proof of a FALSE inequality
+		for _, cval := range []*big.Int{bi(0), new(big.Int).Set(pk.N)} {
+			b, err := cred.CreateDisclosureProofBuilder([]int{3}, nil, false)
+			if err != nil {
+				panic(err)
+			}
+			contribs, err := b.Commit(map[string]*big.Int{"secretkey": g.bits(592)})
+			if err != nil {
+				panic(err)
+			}
+			zero := new(big.Int).Mod(cval, pk.N)
+			for i := 0; i < 5; i++ {
+				contribs = append(contribs, zero)
+			}
+			c := gabi.VerifCreateChallenge(ctx, nonce, contribs, false)
+			fp := b.CreateProof(c).(*gabi.ProofD)
+			tf := proofDTree(fp)
+			falseBound := new(big.Int).Add(m1, bi(1000000000))
+			tf["rangeproofs"] = T{"1": []any{T{"Cs": Is([]*big.Int{cval, cval, cval, cval}), "ds": Is([]*big.Int{bi(1), bi(1), bi(1), bi(1)}),
+				"vs": Is([]*big.Int{bi(1), bi(1), bi(1), bi(1)}), "v5": I(bi(1)), "l_d": 8, "sign": 1, "a": uint64(1), "k": I(falseBound)}}}
+			emit(verifyDOp(kp.id, tf, ctx, nonce, false, "rp-forged-nonunit-commitments", "reject").with("fkey", "C12/nonunit-commitments"))
+		}
 		// range proof removed: the remaining proof no longer matches its challenge
 		t4 := cloneTree(tree).(T)
 		delete(t4, "rangeproofs")
